@@ -175,7 +175,10 @@ def build_block(bs, built):
     elif kind == 'nest':
         outer = build_block(bs['outer'], built)
         inner = build_block(bs['inner'], built)
-        b = sp.Nest(outer, inner, cs) if cs else sp.Nest(outer, inner)
+        if bs.get('alignment'):
+            b = sp.Nest(outer, inner, cs, bs['alignment'])
+        else:
+            b = sp.Nest(outer, inner, cs) if cs else sp.Nest(outer, inner)
     else:
         raise ValueError(kind)
     built.blocks.append(b)
